@@ -60,6 +60,7 @@ def run(trace, slots=None):
         return ifaces.index(n)
     slots = {} if slots is None else slots
     roles = {}
+    owners, free_owners = {}, []     # the wl_display / wl_client struct of each live connection; a freed one is handed out again first
     ops = []        # (event index, scenario text without the leading M/C numbering)
     msgs = []
     nthreads = 1
@@ -74,6 +75,9 @@ def run(trace, slots=None):
             if first:
                 # which side of the connection the program is on: decided by the scenario, visible to the plugin through the call path
                 roles[ev['addr']] = ev.get('side', 'client')
+                owners[ev['addr']] = free_owners.pop(0) if free_owners else len(owners) + len(free_owners)
+                if owners[ev['addr']] > 7:
+                    raise MachineryError('the mock libwayland has 8 owner slots')
             server = roles[ev['addr']] == 'server'
             kind = (3 if (len(ops) % 2) else 4) if m['sent'] else ((1 if len(ops) % 2 else 2) if server else 0)
             c = closure_of(m, kind, i)
@@ -100,11 +104,13 @@ def run(trace, slots=None):
                 elif code == 'a':
                     toks.append('%d:%s' % (len(a['vals']), ','.join(a['vals'])))
             msgs.append('M %s %s %d %s' % (c['name'], ''.join(c['sig']) or '-', len(codes), ' '.join(str(iface(t)) if t else '-1' for t in c['types'])))
-            ops.append((i, 'C %d %d %d %d %s %d %d %s' % (kind, slot, thread, len(msgs) - 1, c['sender'], iface(c['ttype']), len(codes), ' '.join(toks))))
+            ops.append((i, 'C %d %d/%d %d %d %s %d %d %s' % (kind, slot, owners[ev['addr']], thread, len(msgs) - 1, c['sender'], iface(c['ttype']), len(codes), ' '.join(toks))))
         elif ev['e'] == 'destroy':
             slot = slots.setdefault(ev['addr'], len(slots))
             ops.append((i, 'D %d' % slot))
             roles.pop(ev['addr'], None)
+            if ev['addr'] in owners:
+                free_owners.append(owners.pop(ev['addr']))
         else:
             raise MachineryError('only hits and destructions can be scripted in the mock libwayland')
     lines = ['I ' + n for n in ifaces] + msgs
